@@ -93,6 +93,8 @@ fn alphabet() -> Vec<String> {
         "\u{2024}\u{2024}".into(),
         "\u{FF0E}\u{FF0E}".into(),
         long_seg(),
+        // not in the property's alphabet: a plain name that exists only OUTSIDE the base
+        ONLY_OUTSIDE.into(),
     ]
 }
 
@@ -105,33 +107,62 @@ fn marker(kind: char, path: &Path) -> String {
     format!("<<MJ17 {} {}>>", kind, tilde(path.as_os_str().as_bytes()))
 }
 
-fn write_file(path: &Path, kind: char) {
+/// a file name that exists ONLY outside the base: in the scratch root, in every ancestor of the
+/// base and at every level of their `a/` sub-trees — never beneath the base
+const ONLY_OUTSIDE: &str = "only_outside.txt";
+
+fn write_file(path: &Path, kind: char, canaries: &mut Vec<PathBuf>) {
     let m = marker(kind, path);
     fs::write(path, format!("{m}{{% set tag = \"{m}\" %}}")).unwrap();
+    if kind == 'C' {
+        canaries.push(path.to_path_buf());
+    }
 }
 
-fn populate(dir: &Path, depth: usize, kind: char) {
+fn populate(dir: &Path, depth: usize, kind: char, canaries: &mut Vec<PathBuf>) {
     fs::create_dir_all(dir).unwrap();
     for f in FILES {
-        write_file(&dir.join(f), kind);
+        write_file(&dir.join(f), kind, canaries);
     }
     for d in SIDE_DIRS {
         fs::create_dir_all(dir.join(d)).unwrap();
-        write_file(&dir.join(d).join("a."), kind);
+        write_file(&dir.join(d).join("a."), kind, canaries);
+    }
+    if kind == 'C' {
+        write_file(&dir.join(ONLY_OUTSIDE), kind, canaries);
     }
     if depth > 0 {
-        populate(&dir.join("a"), depth - 1, kind);
+        populate(&dir.join("a"), depth - 1, kind, canaries);
     }
+}
+
+/// canary-only names in one directory outside the base: a name unique to that directory, a
+/// directory that has no namesake beneath the base, and plain names without any dot
+fn outside_only(dir: &Path, label: &str, canaries: &mut Vec<PathBuf>) {
+    write_file(&dir.join(format!("only_{label}.txt")), 'C', canaries);
+    write_file(&dir.join("onlyoutside"), 'C', canaries);
+    fs::create_dir_all(dir.join("outside_dir").join("sub")).unwrap();
+    write_file(&dir.join("outside_dir").join("x.txt"), 'C', canaries);
+    write_file(&dir.join("outside_dir").join("sub").join("y.txt"), 'C', canaries);
+    // nested beneath the directory name that also exists inside the base
+    write_file(&dir.join("a").join(format!("only_{label}_nested.txt")), 'C', canaries);
 }
 
 struct Tree {
     root: PathBuf,
     p4: PathBuf,
     base: PathBuf,
+    /// scratch root, p1 … p4 (the base's ancestors inside the scratch tree)
+    chain: Vec<PathBuf>,
+    /// every canary file (all of them are outside the base)
+    canaries: Vec<PathBuf>,
 }
 
 fn tree_root() -> PathBuf {
-    PathBuf::from(std::env::var("VERIF_C17_DIR").unwrap_or_else(|_| "/verif/.build/c17/tree".into()))
+    PathBuf::from(
+        std::env::var("VERIF_C17_DIR")
+            .unwrap_or_else(|_| concat!(env!("CARGO_MANIFEST_DIR"), "/../.build/c17/tree").into()),
+    )
 }
 
 fn build_tree() -> Tree {
@@ -139,17 +170,26 @@ fn build_tree() -> Tree {
     let _ = fs::remove_dir_all(&root);
     fs::create_dir_all(&root).unwrap();
     let root = fs::canonicalize(&root).unwrap();
+    let mut canaries = vec![];
+    let mut chain = vec![root.clone()];
     let mut dir = root.clone();
-    populate(&dir, 1, 'C');
+    populate(&dir, 1, 'C', &mut canaries);
+    outside_only(&dir, "root", &mut canaries);
     for p in ["p1", "p2", "p3", "p4"] {
         dir = dir.join(p);
-        populate(&dir, 3, 'C');
+        populate(&dir, 3, 'C', &mut canaries);
+        outside_only(&dir, p, &mut canaries);
+        chain.push(dir.clone());
     }
     let p4 = dir.clone();
+    // a sibling of the base
+    fs::create_dir_all(p4.join("sibling")).unwrap();
+    write_file(&p4.join("sibling").join("only_sibling.txt"), 'C', &mut canaries);
     let base = p4.join("base");
-    populate(&base, 4, 'B');
+    let mut none = vec![];
+    populate(&base, 4, 'B', &mut none);
     std::env::set_current_dir(&p4).unwrap();
-    Tree { root, p4, base }
+    Tree { root, p4, base, chain, canaries }
 }
 
 /// the spellings of the base directory handed to `path_loader` (cwd = the base's parent)
@@ -379,6 +419,30 @@ fn targeted(t: &Tree) -> Vec<String> {
         v.push(format!("a/{c}"));
         v.push(c.replace('/', "\\"));
         v.push(format!("file://{c}"));
+    }
+    // every canary file requested by its file name and by its name relative to each of the
+    // directories above it inside the scratch tree (plain, rooted, doubled and trailing slashes)
+    let mut rels: Vec<String> = vec![];
+    for c in &t.canaries {
+        let mut cands = vec![c.file_name().unwrap().to_str().unwrap().to_string()];
+        for d in &t.chain {
+            if let Ok(r) = c.strip_prefix(d) {
+                cands.push(r.to_str().unwrap().to_string());
+            }
+        }
+        for r in cands {
+            if !rels.contains(&r) {
+                rels.push(r);
+            }
+        }
+    }
+    for r in rels {
+        v.push(format!("/{r}"));
+        v.push(format!("{r}/"));
+        v.push(r.replace('/', "//"));
+        v.push(format!("a/{r}"));
+        v.push(format!("a/a/{r}"));
+        v.push(r);
     }
     for s in [
         "../a.", "../a/a.", "..\\a.", "../../a.", "a/../../a.", "./../a.", "%2e%2e/a.", "..%2fa.", "%2e%2e%2fa.",
